@@ -124,7 +124,7 @@ where
                 {
                     let mut inner = info.info.borrow_mut();
 
-                    if let Some(pid) = packet_id {
+                    if packet_id.is_some() {
                         // check for receive maximum
                         if self.max_receive != 0 && inner.inflight.len() >= self.max_receive {
                             log::trace!(
@@ -133,18 +133,6 @@ where
                                 inner.inflight.len()
                             );
                             return Err(SpecViolation::Pub_3_3_4_9.into());
-                        }
-
-                        // check for duplicated packet id
-                        if !inner.inflight.insert(pid) {
-                            let _ = self.inner.sink.encode_packet(Packet::PublishAck(
-                                codec::PublishAck {
-                                    packet_id: pid,
-                                    reason_code: codec::PublishAckReason::PacketIdentifierInUse,
-                                    ..Default::default()
-                                },
-                            ));
-                            return Ok(None);
                         }
                     }
 
@@ -181,6 +169,21 @@ where
                                 }
                             }
                         }
+                    }
+
+                    // check for duplicated packet id, the peer has bound the alias
+                    // even if this publish is refused
+                    if let Some(pid) = packet_id
+                        && !inner.inflight.insert(pid)
+                    {
+                        let _ = self.inner.sink.encode_packet(Packet::PublishAck(
+                            codec::PublishAck {
+                                packet_id: pid,
+                                reason_code: codec::PublishAckReason::PacketIdentifierInUse,
+                                ..Default::default()
+                            },
+                        ));
+                        return Ok(None);
                     }
                 }
 
